@@ -1,7 +1,7 @@
 (* Proofs about Model/C15.v: antimeridian test on padded shells = the property's wording, the
    exclude / split / ignore index maps, data alignment, transparency of the cache machines
    generated from the source, returned objects.  Unbounded (any number of faces, any history). *)
-From Coq Require Import ZifyBool Lia.
+From Coq Require Import ZifyBool Lia Sorting.Sorted.
 From Verif Require Import Base C15 C15_keys.
 
 Local Open Scope nat_scope.
@@ -298,6 +298,227 @@ Proof.
 Qed.
 
 Local Open Scope Z_scope.
+
+(* ------------------------------------------------------------------------- *)
+(* C'. per-face decisions, the split table in detail, the builders' bookkeeping *)
+
+Local Open Scope nat_scope.
+
+Definition c15_faces_wf (m : nat) (faces : list (list Z)) : Prop :=
+  forall c, In c faces -> c <> [] /\ length c <= m.
+
+Lemma c15_am_faces_where m faces : c15_faces_wf m faces ->
+  c15_am_faces m faces = c15_where (map c15_spans faces).
+Proof.
+  intros H. unfold c15_am_faces. f_equal. apply map_ext_in. intros c Hc.
+  destruct (H c Hc). apply c15_crosses_shell; assumption.
+Qed.
+
+Lemma c15_mem_where mask i : c15_mem i (c15_where mask) = nth i mask false.
+Proof.
+  destruct (nth i mask false) eqn:E.
+  - apply c15_mem_In. apply c15_where_spec. assumption.
+  - destruct (c15_mem i (c15_where mask)) eqn:M; auto.
+    apply c15_mem_In in M. apply c15_where_spec in M. congruence.
+Qed.
+
+(* a face is in the antimeridian table iff one of its edges spans at least 180 degrees *)
+Lemma c15_am_faces_spec m faces i : c15_faces_wf m faces ->
+  (In i (c15_am_faces m faces) <-> i < length faces /\ c15_spans (nth i faces []) = true).
+Proof.
+  intros H. rewrite c15_am_faces_where by assumption. rewrite c15_where_spec. split.
+  - intros E. assert (L : i < length faces).
+    { destruct (Nat.lt_ge_cases i (length faces)); auto.
+      rewrite nth_overflow in E by (rewrite map_length; auto). discriminate. }
+    split; auto. rewrite (nth_indep _ false (c15_spans [])) in E by (rewrite map_length; auto).
+    rewrite map_nth in E. exact E.
+  - intros [L E]. rewrite (nth_indep _ false (c15_spans [])) by (rewrite map_length; auto).
+    rewrite map_nth. exact E.
+Qed.
+
+(* exclude, from the corner longitudes: exactly the faces none of whose edges spans >= 180, in order *)
+Lemma c15_exclude_full m faces pieces values : c15_faces_wf m faces ->
+  o_faces (c15_poly_full C15Exclude m faces None pieces values) =
+  filter (fun i => negb (c15_spans (nth i faces []))) (seq 0 (length faces)).
+Proof.
+  intros H. unfold c15_poly_full. rewrite (proj1 (c15_poly_exclude_faces _ _ _ _)).
+  apply filter_ext_in. intros i Hi. apply in_seq in Hi. unfold c15_notam.
+  rewrite c15_am_faces_where by assumption. rewrite c15_mem_where.
+  rewrite (nth_indep _ false (c15_spans [])) by (rewrite map_length; lia).
+  rewrite map_nth. reflexivity.
+Qed.
+
+(* ---- the split table ---- *)
+
+Definition c15_blocks (k : nat) (pieces : list nat) : list nat :=
+  flat_map (fun p => repeat (fst p) (snd p)) (combine (seq k (length pieces)) pieces).
+
+Lemma c15_split_map_blocks pieces : c15_split_map pieces = c15_blocks 0 pieces.
+Proof. reflexivity. Qed.
+
+Lemma c15_blocks_cons k p ps : c15_blocks k (p :: ps) = repeat k p ++ c15_blocks (S k) ps.
+Proof. reflexivity. Qed.
+
+Lemma c15_blocks_ge : forall pieces k x, In x (c15_blocks k pieces) -> k <= x.
+Proof.
+  induction pieces as [|p ps IH]; intros k x; [intros []|].
+  rewrite c15_blocks_cons. intros H. apply in_app_or in H. destruct H as [H|H].
+  - apply repeat_spec in H. lia.
+  - apply IH in H. lia.
+Qed.
+
+(* monotone: the table never decreases *)
+Lemma c15_blocks_sorted : forall pieces k, StronglySorted le (c15_blocks k pieces).
+Proof.
+  induction pieces as [|p ps IH]; intros k; [constructor|].
+  rewrite c15_blocks_cons. induction p as [|p IHp]; simpl; [apply IH|].
+  constructor; auto. apply Forall_forall. intros x Hx. apply in_app_or in Hx. destruct Hx as [Hx|Hx].
+  - apply repeat_spec in Hx. lia.
+  - apply c15_blocks_ge in Hx. lia.
+Qed.
+
+Lemma c15_split_map_sorted pieces : StronglySorted le (c15_split_map pieces).
+Proof. apply c15_blocks_sorted. Qed.
+
+(* total and onto the faces: every face that has at least one piece is listed, nothing else is *)
+Lemma c15_split_map_onto pieces i :
+  In i (c15_split_map pieces) <-> i < length pieces /\ 1 <= nth i pieces 0.
+Proof.
+  rewrite (count_occ_In Nat.eq_dec). rewrite c15_split_map_count. split.
+  - intros H. split; [|lia]. destruct (Nat.lt_ge_cases i (length pieces)); auto.
+    rewrite nth_overflow in H by assumption. lia.
+  - intros [_ H]. lia.
+Qed.
+
+(* the polygons of face i are the rows offset(i) .. offset(i) + pieces(i) - 1, consecutive *)
+Lemma c15_blocks_nth : forall pieces k i j,
+  i < length pieces -> j < nth i pieces 0 ->
+  nth (c15_offset pieces i + j) (c15_blocks k pieces) 0 = k + i.
+Proof.
+  induction pieces as [|p ps IH]; intros k i j Hi Hj; [simpl in Hi; lia|].
+  rewrite c15_blocks_cons. destruct i as [|i].
+  - simpl in Hj. unfold c15_offset. simpl. rewrite app_nth1 by (rewrite repeat_length; assumption).
+    rewrite (nth_indep _ 0 k) by (rewrite repeat_length; assumption). rewrite nth_repeat. lia.
+  - unfold c15_offset. cbn [firstn fold_right]. fold (c15_offset ps i).
+    rewrite app_nth2 by (rewrite repeat_length; lia). rewrite repeat_length.
+    replace (p + c15_offset ps i + j - p) with (c15_offset ps i + j) by lia.
+    rewrite IH; [lia| simpl in Hi; lia| exact Hj].
+Qed.
+
+Lemma c15_split_rows pieces i j :
+  i < length pieces -> j < nth i pieces 0 ->
+  nth (c15_offset pieces i + j) (c15_split_map pieces) 0 = i.
+Proof. intros. rewrite c15_split_map_blocks, c15_blocks_nth; auto. Qed.
+
+Lemma c15_blocks_length : forall pieces k, length (c15_blocks k pieces) = fold_right Nat.add 0 pieces.
+Proof.
+  induction pieces as [|p ps IH]; intros k; [reflexivity|].
+  rewrite c15_blocks_cons, app_length, repeat_length, IH. reflexivity.
+Qed.
+
+Lemma c15_offset_lt : forall pieces i j, i < length pieces -> j < nth i pieces 0 ->
+  c15_offset pieces i + j < fold_right Nat.add 0 pieces.
+Proof.
+  induction pieces as [|p ps IH]; intros i j Hi Hj; [simpl in Hi; lia|].
+  destruct i as [|i]; unfold c15_offset; simpl in *; [lia|].
+  fold (c15_offset ps i). specialize (IH i j ltac:(lia) Hj). lia.
+Qed.
+
+(* data through the split table: every polygon of every face carries that face's value *)
+Lemma c15_split_data_every_face n am nan pieces values i j :
+  i < length pieces -> j < nth i pieces 0 ->
+  nth (c15_offset pieces i + j) (o_data (c15_poly C15Split n am nan pieces values)) 0%Z = nth i values 0%Z.
+Proof.
+  intros Hi Hj. cbn [c15_poly o_data]. unfold c15_gather.
+  rewrite (nth_indep _ 0%Z (nth 0 values 0%Z)).
+  - rewrite (map_nth (fun f => nth f values 0%Z) (c15_split_map pieces) 0 (c15_offset pieces i + j)).
+    rewrite c15_split_rows by assumption. reflexivity.
+  - rewrite map_length, c15_split_map_blocks, c15_blocks_length. apply c15_offset_lt; assumption.
+Qed.
+
+(* ---- the face-by-face account equals the array pipeline ---- *)
+
+Lemma c15_rows_split_gen : forall faces pieces k, length faces = length pieces ->
+  flat_map (fun p : nat * (list Z * nat) => repeat (fst p) (snd (snd p)))
+           (combine (seq k (length faces)) (combine faces pieces)) = c15_blocks k pieces.
+Proof.
+  induction faces as [|c faces IH]; intros [|p ps] k H; simpl in H; try discriminate; [reflexivity|].
+  rewrite c15_blocks_cons. cbn [length seq combine flat_map fst snd]. f_equal. apply IH. lia.
+Qed.
+
+Lemma c15_rows_ignore_gen : forall faces pieces k, length faces = length pieces ->
+  flat_map (fun p : nat * (list Z * nat) => repeat (fst p) 1)
+           (combine (seq k (length faces)) (combine faces pieces)) = seq k (length faces).
+Proof.
+  induction faces as [|c faces IH]; intros [|p ps] k H; simpl in H; try discriminate; [reflexivity|].
+  cbn [length seq combine flat_map fst repeat app]. f_equal. apply IH. lia.
+Qed.
+
+Lemma c15_rows_exclude_gen m : forall faces pieces k, length faces = length pieces ->
+  flat_map (fun p : nat * (list Z * nat) =>
+              repeat (fst p) (if c15_crosses (c15_shell m (fst (snd p))) then 0 else 1))
+           (combine (seq k (length faces)) (combine faces pieces)) =
+  filter (fun i => negb (c15_crosses (c15_shell m (nth (i - k) faces [])))) (seq k (length faces)).
+Proof.
+  induction faces as [|c faces IH]; intros [|p ps] k H; simpl in H; try discriminate; [reflexivity|].
+  cbn [length seq combine flat_map fst snd filter]. rewrite Nat.sub_diag. cbn [nth].
+  rewrite IH by lia.
+  assert (E : filter (fun i => negb (c15_crosses (c15_shell m (nth (i - S k) faces [])))) (seq (S k) (length faces)) =
+              filter (fun i => negb (c15_crosses (c15_shell m (nth (i - k) (c :: faces) [])))) (seq (S k) (length faces))).
+  { apply filter_ext_in. intros i Hi. apply in_seq in Hi. replace (i - k) with (S (i - S k)) by lia. reflexivity. }
+  rewrite E. destruct (c15_crosses (c15_shell m c)); reflexivity.
+Qed.
+
+(* C15_rows: told face by face (dropped / one polygon / its pieces), the conversion yields the same
+   polygon -> face list as the array pipeline (np.delete, split table, identity) *)
+Lemma c15_rows_pipeline per m faces pieces values : length faces = length pieces ->
+  c15_rows per m faces pieces = o_faces (c15_poly_full per m faces None pieces values).
+Proof.
+  intros H. unfold c15_rows, c15_poly_full. destruct per; cbn [c15_face_rows c15_poly o_faces].
+  - rewrite c15_rows_exclude_gen by assumption. rewrite c15_delete_seq.
+    apply filter_ext_in. intros i Hi. apply in_seq in Hi. rewrite Nat.sub_0_r.
+    unfold c15_am_faces. rewrite c15_mem_where.
+    rewrite (nth_indep _ false (c15_crosses (c15_shell m []))) by (rewrite map_length; lia).
+    rewrite (map_nth (fun c => c15_crosses (c15_shell m c))). reflexivity.
+  - rewrite c15_rows_split_gen by assumption. reflexivity.
+  - apply c15_rows_ignore_gen. assumption.
+Qed.
+
+(* ---- bookkeeping: data re-indexed with the tables of the same build, or of another one ---- *)
+
+Lemma c15_tables_same_build per m faces nan pieces values :
+  c15_da_from_tables per (c15_poly_tables per m faces nan pieces) values =
+  o_data (c15_poly_full per m faces nan pieces values).
+Proof. unfold c15_poly_full. destruct per; destruct nan; reflexivity. Qed.
+
+Lemma c15_tables_same_build_aligned per m faces nan pieces values :
+  length values = length faces ->
+  (match nan with Some fl => length fl = length values | None => True end) ->
+  c15_da_from_tables per (c15_poly_tables per m faces nan pieces) values =
+  map (fun f => nth f values 0%Z) (o_faces (c15_poly_full per m faces nan pieces values)).
+Proof.
+  intros L Hn. rewrite c15_tables_same_build. unfold c15_poly_full. rewrite <- L.
+  destruct per.
+  - apply c15_poly_exclude_aligned. assumption.
+  - apply c15_poly_split_aligned.
+  - apply c15_poly_ignore_aligned.
+Qed.
+
+Local Open Scope Z_scope.
+
+(* with the tables another build left behind (other projection frame: other crossing faces) the
+   values land on other faces *)
+Lemma c15_tables_foreign_refuted : exists per m faces faces' pieces values,
+  length values = length faces /\ length faces' = length faces /\
+  c15_da_from_tables per (c15_poly_tables per m faces' None pieces) values <>
+  map (fun f => nth f values 0) (o_faces (c15_poly_full per m faces None pieces values)).
+Proof.
+  exists C15Exclude, 3%nat,
+         [[170000000; -170000000; -160000000]; [10000000; 20000000; 15000000]; [30000000; 40000000; 35000000]],
+         [[-10000000; 10000000; 20000000]; [-170000000; -160000000; -165000000]; [-150000000; 140000000; -145000000]],
+         [1%nat; 1%nat; 1%nat], [100; 101; 102].
+  split; [reflexivity|]. split; [reflexivity|]. vm_compute. discriminate.
+Qed.
 
 (* ------------------------------------------------------------------------- *)
 (* D. cache machines                                                           *)
@@ -647,6 +868,20 @@ Example c15_pipeline_nonvacuous :
   o_data (c15_poly C15Split 3 [1%nat] None [1%nat; 2%nat; 1%nat] [10; 20; 30]) = [10; 20; 20; 30] /\
   o_faces (c15_gdf C15Exclude 3 [0%nat] (Some [(false, false); (false, true); (false, false)]) [10; 20; 30]) = [2%nat].
 Proof. vm_compute. repeat split; reflexivity. Qed.
+
+Example c15_rows_nonvacuous :
+  c15_faces_wf 4 [[170000000; -170000000; -160000000]; [10000000; 20000000; 15000000; 12000000]] /\
+  c15_rows C15Split 4 [[170000000; -170000000; -160000000]; [10000000; 20000000; 15000000; 12000000]] [2%nat; 1%nat] = [0%nat; 0%nat; 1%nat] /\
+  c15_rows C15Exclude 4 [[170000000; -170000000; -160000000]; [10000000; 20000000; 15000000; 12000000]] [2%nat; 1%nat] = [1%nat] /\
+  c15_offset [2%nat; 1%nat; 3%nat] 2 = 3%nat /\
+  nth (c15_offset [2%nat; 1%nat; 3%nat] 2 + 1) (c15_split_map [2%nat; 1%nat; 3%nat]) 0%nat = 2%nat /\
+  t_am (c15_poly_tables C15Exclude 4 [[170000000; -170000000; -160000000]; [10000000; 20000000; 15000000; 12000000]] None [2%nat; 1%nat]) = [0%nat] /\
+  t_c2o (c15_poly_tables C15Exclude 4 [[170000000; -170000000; -160000000]; [10000000; 20000000; 15000000; 12000000]] None [2%nat; 1%nat]) = [1%nat].
+Proof.
+  split.
+  - intros c [<-|[<-|[]]]; split; simpl; try discriminate; lia.
+  - vm_compute. repeat split; reflexivity.
+Qed.
 
 Example c15_cache_nonvacuous :
   fst (fst (c15_call c15_sp_line (c15_run c15_sp_line c15_init [c15_mk 1 7 true]) (c15_mk 1 0 true))) = [1; 0] /\
